@@ -310,6 +310,24 @@ func init() {
 		return VPtr{T: p}, pc
 	})
 	externWrites["github.com/fiorix/go-diameter/diam/sm.New"] = []string{"next"}
+	// the generated OpenAPI client used for the re-authorisation notification (internal/sbi/processor)
+	newObj := func(ex *Exec, fr *Frame, st *State, pc *Term, fn *ssa.Function, args []Value, pos token.Pos) (Value, *Term) {
+		return VPtr{T: ex.alloc(st, pc)}, pc
+	}
+	for _, n := range []string{"NewConfiguration", "NewAPIClient", "NewPostChargingNotificationRequest"} {
+		regExtern("github.com/free5gc/openapi/chf/ConvergedCharging."+n, "ConvergedCharging."+n+": a new non-nil object", newObj)
+		externWrites["github.com/free5gc/openapi/chf/ConvergedCharging."+n] = []string{"next"}
+	}
+	regExtern("context.Background", "context.Background: an opaque context value", pureOpaque)
+	regExtern("(*github.com/free5gc/openapi/chf/ConvergedCharging.PostChargingNotificationRequest).SetChargingNotifyRequest", "SetChargingNotifyRequest: stores the body in the request object; no effect on modelled state", pureOpaque)
+	regExtern("(*github.com/free5gc/openapi/chf/ConvergedCharging.DefaultApiService).PostChargingNotification", "DefaultApiService.PostChargingNotification: hands one notification to the HTTP client (ghostNotifications++); any response, any error",
+		func(ex *Exec, fr *Frame, st *State, pc *Term, fn *ssa.Function, args []Value, pos token.Pos) (Value, *Term) {
+			if g, ok := ex.ghostVar(fr, "ghostNotifications"); ok {
+				cur := ex.ghostLoad(st, pc, g).(VBV).T
+				ex.ghostStore(st, g, VBV{Add(cur, C64(1))})
+			}
+			return pureOpaque(ex, fr, st, pc, fn, args, pos)
+		})
 	regExtern("github.com/fiorix/go-diameter/diam.NewAVP", "diam.NewAVP: a new non-nil AVP (it returns the address of a composite literal)", func(ex *Exec, fr *Frame, st *State, pc *Term, fn *ssa.Function, args []Value, pos token.Pos) (Value, *Term) {
 		return VPtr{T: ex.alloc(st, pc)}, pc
 	})
